@@ -23,7 +23,7 @@ pub fn san_label(s: &str) -> String {
         .collect()
 }
 
-const UNITS: &[Unit] = &[
+pub const UNITS: &[Unit] = &[
     Unit::Count,
     Unit::Percent,
     Unit::Seconds,
@@ -43,7 +43,7 @@ const UNITS: &[Unit] = &[
     Unit::CountPerSecond,
 ];
 
-fn unit_suffix(u: Unit) -> Option<&'static str> {
+pub fn unit_suffix(u: Unit) -> Option<&'static str> {
     match u {
         Unit::Count => None,
         Unit::Percent => Some("ratio"),
@@ -390,6 +390,26 @@ fn run_seq(a: &Args, hostile: bool) -> Report {
         let metrics_ = gen_metrics(&mut r, &mut cfg, hostile);
         if metrics_.is_empty() {
             continue;
+        }
+        // aim an override at a histogram that really exists (whole name, head or tail of it): generic patterns almost
+        // never match hostile names, and the per-metric classes must be exercised with and without a unit suffix
+        if r.chance(1, 2) {
+            if let Some(m) = metrics_.iter().find(|m| m.kind == 2) {
+                let cls = r.below(3) as u8;
+                let chars: Vec<char> = m.name.chars().collect();
+                let cut = 1 + r.usize(chars.len());
+                let pat: String = match cls {
+                    0 => m.name.clone(),
+                    1 => chars[..cut].iter().collect(),
+                    _ => chars[chars.len() - cut..].iter().collect(),
+                };
+                if !cfg.overrides.iter().any(|(c, _, _)| *c == cls) {
+                    cfg.overrides.push((cls, pat, vec![0.25, 7.0]));
+                    if r.chance(1, 2) {
+                        cfg.global_buckets = None;
+                    }
+                }
+            }
         }
         let e = build(&cfg);
         let mut st: Vec<MState> = vec![MState::default(); metrics_.len()];
